@@ -5,20 +5,26 @@
 EXTENDS MC_Blind, Json, IOUtils, FiniteSetsExt
 
 Shape(sk) == [ins |-> [k \in DOMAIN sk.ins |-> [asset |-> sk.ins[k].asset, v |-> sk.ins[k].v, conf |-> sk.ins[k].conf]],
-              iss_on |-> sk.iss.on, iss_v |-> sk.iss.v,
-              outs |-> [k \in DOMAIN sk.outs |-> [asset |-> sk.outs[k].asset, v |-> sk.outs[k].v, marked |-> sk.outs[k].marked,
+              iss_on |-> sk.iss.on, iss_v |-> sk.iss.v, iss_vc |-> sk.iss.vc, iss_tv |-> sk.iss.tv, iss_tc |-> sk.iss.tc, manual |-> sk.manual,
+              outs |-> [k \in DOMAIN sk.outs |-> [asset |-> sk.outs[k].asset, v |-> sk.outs[k].v, marked |-> sk.outs[k].marked, want |-> sk.outs[k].want,
                                                   fee |-> sk.outs[k].fee, burn |-> (sk.outs[k].v = 0)]]]
-ConfOuts(sk) == { k \in DOMAIN sk.outs : sk.outs[k].marked /\ ~sk.outs[k].fee }
-ExplOuts(sk) == DOMAIN sk.outs \ ConfOuts(sk)
+MarkedOuts(sk) == { k \in DOMAIN sk.outs : sk.outs[k].marked /\ ~sk.outs[k].fee }
+VOuts(sk) == { k \in MarkedOuts(sk) : sk.outs[k].want \in {"full", "value"} }       \* value committed: range proof
+AOuts(sk) == { k \in MarkedOuts(sk) : sk.outs[k].want \in {"full", "asset"} }       \* asset committed: surjection proof
+ExplV(sk) == DOMAIN sk.outs \ VOuts(sk)
+ExplA(sk) == DOMAIN sk.outs \ AOuts(sk)
 T(kind, k, j, err) == [kind |-> kind, k |-> k, j |-> j, err |-> err]
 Tampers(sk) ==
-  { T("out_amount", k, 0, "BalanceCheckFailed") : k \in ExplOuts(sk) }
-  \cup { T("out_asset", k, 0, "BalanceCheckFailed") : k \in { x \in ExplOuts(sk) : sk.outs[x].v > 0 } }
-  \cup { T(kind, k, 0, "any") : kind \in {"replace_value_commit", "replace_asset_commit", "corrupt_rp", "corrupt_sp", "change_script"}, k \in ConfOuts(sk) }
-  \cup { T("drop_rp", k, 0, "RangeProofMissing") : k \in ConfOuts(sk) }
-  \cup { T("drop_sp", k, 0, "SurjectionProofMissing") : k \in ConfOuts(sk) }
-  \cup { T(kind, p[1], p[2], "any") : kind \in {"swap_commitments", "swap_rp", "swap_sp"}, p \in { q \in ConfOuts(sk) \X ConfOuts(sk) : q[2] > q[1] } }
-  \cup (IF sk.iss.on # 0 THEN { T("issuance_amount", 0, 0, "BalanceCheckFailed") } ELSE {})
+  { T("out_amount", k, 0, "BalanceCheckFailed") : k \in ExplV(sk) }
+  \cup { T("out_asset", k, 0, IF k \in VOuts(sk) THEN "any" ELSE "BalanceCheckFailed") : k \in { x \in ExplA(sk) : sk.outs[x].v > 0 } }
+  \cup { T(kind, k, 0, "any") : kind \in {"replace_value_commit", "corrupt_rp", "change_script"}, k \in VOuts(sk) }
+  \cup { T(kind, k, 0, "any") : kind \in {"replace_asset_commit", "corrupt_sp"}, k \in AOuts(sk) }
+  \cup { T("drop_rp", k, 0, "RangeProofMissing") : k \in VOuts(sk) }
+  \cup { T("drop_sp", k, 0, IF k \in VOuts(sk) THEN "SurjectionProofMissing" ELSE "SurjectionProofMissing") : k \in AOuts(sk) }
+  \cup { T(kind, p[1], p[2], "any") : kind \in {"swap_commitments", "swap_rp"}, p \in { q \in VOuts(sk) \X VOuts(sk) : q[2] > q[1] } }
+  \cup { T("swap_sp", p[1], p[2], "any") : p \in { q \in AOuts(sk) \X AOuts(sk) : q[2] > q[1] } }
+  \cup (IF sk.iss.on # 0 /\ sk.iss.v > 0 THEN { T("issuance_amount", 0, 0, IF sk.iss.vc THEN "any" ELSE "BalanceCheckFailed") } ELSE {})
+  \cup (IF sk.iss.on # 0 /\ sk.iss.tv > 0 THEN { T("issuance_tokens", 0, 0, IF sk.iss.tc THEN "any" ELSE "BalanceCheckFailed") } ELSE {})
   \cup { T(kind, i, 0, "any") : kind \in {"utxo_value", "utxo_asset"}, i \in DOMAIN sk.ins }
   \cup { T(kind, i, 0, "any") : kind \in {"utxo_vbf", "utxo_abf"}, i \in { x \in DOMAIN sk.ins : sk.ins[x].conf } }
   \cup { T("utxo_drop_last", 0, 0, "UtxoInputLenMismatch"), T("utxo_extra", 0, 0, "UtxoInputLenMismatch") }
@@ -27,16 +33,16 @@ BlindCases == { [sk |-> Shape(sk), tampers |-> SetToSeq(Tampers(sk))] : sk \in S
 \* all-explicit table ---------------------------------------------------------------------------
 ExplMax == atoi(IOEnv.GEN_EXPL_OUTS)
 EIns  == UNION { [1..n -> [asset : {"A", "B"}, v : 1..2]] : n \in 1..2 }
-EOuts == UNION { [1..n -> [asset : {"A", "B", "N"}, v : 0..2, script : {"std", "unspendable"}]] : n \in 1..ExplMax }
+EOuts == UNION { [1..n -> [asset : {"A", "B", "N", "T"}, v : 0..2, script : {"std", "unspendable"}]] : n \in 1..ExplMax }
 MkE(ins, outs, isson) ==
   [ins |-> [k \in DOMAIN ins |-> I(ins[k].asset, ins[k].v, FALSE, 0, 0)],
-   iss |-> IF isson THEN [on |-> 1, asset |-> "N", v |-> 1] ELSE NoIss,
+   iss |-> IF isson = 0 THEN NoIss ELSE IF isson = 1 THEN Iss(1, FALSE, 0, 0, FALSE, 0) ELSE IF isson = 2 THEN Iss(0, FALSE, 0, 1, FALSE, 0) ELSE Iss(1, FALSE, 0, 1, FALSE, 0),
    outs |-> [k \in DOMAIN outs |-> [O(outs[k].asset, outs[k].v) EXCEPT !.script = outs[k].script]]]
-ExplicitCases == { LET t == MkE(i, o, n) IN [ins |-> i, outs |-> o, iss |-> n, verdict |-> Verify(t, t.ins)] : i \in EIns, o \in EOuts, n \in BOOLEAN }
+ExplicitCases == { LET t == MkE(i, o, n) IN [ins |-> i, outs |-> o, iss |-> n, verdict |-> Verify(t, t.ins)] : i \in EIns, o \in EOuts, n \in 0..3 }
 
 GInit == tx = (CHOOSE s \in Sk : TRUE) /\ pos = 1 /\ phase = "x"
 GNext == UNCHANGED vars
 ASSUME ndJsonSerialize(IOEnv.OUT_BLIND, SetToSeq(BlindCases))
 ASSUME ndJsonSerialize(IOEnv.OUT_EXPL, SetToSeq(ExplicitCases))
-ASSUME PrintT(<<"EMITTED", Cardinality(BlindCases), Cardinality(ExplicitCases), Cardinality({ c \in ExplicitCases : c.verdict = "OK" })>>)
+ASSUME PrintT(<<"EMITTED", Cardinality(BlindCases), Cardinality(ExplicitCases), Cardinality({ c \in ExplicitCases : c.verdict = "OK" }), Cardinality({ c \in BlindCases : c.sk.manual })>>)
 =============================================================================
